@@ -12,7 +12,7 @@
 
 #define BG_UMAX 0xFFFFFFFFul /* B-SIZE: vertex count fits VertexIndex */
 
-#define BG_SCRATCH_(L) bg_scratch_row, bg_scratch_val_##L, bg_cur_adj, bg_ghost_frontier
+#define BG_SCRATCH_(L) bg_scratch_row, bg_scratch_val_##L, bg_cur_adj, bg_ghost_lookup, bg_ghost_frontier
 
 /* ---- class counters ---- */
 #define C_LEN_(c, F) F((c).len)
@@ -120,12 +120,17 @@
    BG_MAP_FRESH((g)->edgeLabels) && D_WF_SAFE(g) &&                           \
    bg_exc == BG_EXC_NONE && BG_SCRATCH_CLEAN)
 /* frame of a mutating member function: every ghost field, never the pointers */
+/* graph-const functions: the caller's ghost frontier may stay attached */
+#define D_PRE_C(g)                                                            \
+  (__CPROVER_is_fresh(g, sizeof(*(g))) && BG_ADJ_FRESH((g)->adjacencyList) && \
+   BG_MAP_FRESH((g)->edgeLabels) && D_WF_SAFE(g) &&                           \
+   bg_exc == BG_EXC_NONE && BG_SCRATCH_CLEAN_NF)
 #define D_FRAME(g, L)                                                         \
   (g)->size, (g)->edgeNumber, (g)->adjacencyList.n, (g)->adjacencyList.r,     \
       (g)->edgeLabels.s, *(g)->adjacencyList.rowP, *(g)->adjacencyList.rowQ,  \
       *(g)->edgeLabels.valPQ, *(g)->edgeLabels.valQP, bg_exc, BG_SCRATCH_(L)
 /* graph-const functions leave the caller's ghost frontier alone */
-#define BG_SCRATCH_NF_(L) bg_scratch_row, bg_scratch_val_##L, bg_cur_adj
+#define BG_SCRATCH_NF_(L) bg_scratch_row, bg_scratch_val_##L, bg_cur_adj, bg_ghost_lookup
 #define D_FRAME_CONST(L) bg_exc, BG_SCRATCH_NF_(L)
 
 #define BG_VAL_CLEAN(L) (!bg_scratch_val_##L.valid && !bg_scratch_val_##L.out)
@@ -159,6 +164,10 @@
   (__CPROVER_is_fresh(g, sizeof(*(g))) && BG_ADJ_FRESH(U_B(g)->adjacencyList) && \
    BG_MAP_FRESH(U_B(g)->edgeLabels) && U_WF_SAFE(g) && bg_exc == BG_EXC_NONE && \
    BG_SCRATCH_CLEAN)
+#define U_PRE_C(g)                                                            \
+  (__CPROVER_is_fresh(g, sizeof(*(g))) && BG_ADJ_FRESH(U_B(g)->adjacencyList) && \
+   BG_MAP_FRESH(U_B(g)->edgeLabels) && U_WF_SAFE(g) && bg_exc == BG_EXC_NONE && \
+   BG_SCRATCH_CLEAN_NF)
 #define U_FRAME(g, L) D_FRAME(U_B(g), L)
 #define U_SAME_VLabel(g) D_SAME_VLabel(U_B(g))
 #define U_SAME_NoLabel(g) D_SAME_NoLabel(U_B(g))
@@ -268,6 +277,7 @@
            IT_P_AX((it).neighbour) && BG_IT_CUR_OK((it).neighbour) && \
            ((bg_size)(it).vertex != G_P || IT_SPLIT_OF((it).neighbour, (g)->adjacencyList.rowP->c)) && \
            ((bg_size)(it).vertex != G_Q || G_P == G_Q || IT_SPLIT_OF((it).neighbour, (g)->adjacencyList.rowQ->c)))))
+#define EIT_ATTACHED(g) (bg_ghost_frontier.a == &(g)->adjacencyList)
 /* the frontier follows this iterator; rank counts the positions before it */
 #define EIT_TRACKED(it, g)                                                    \
   (bg_ghost_frontier.a == &(g)->adjacencyList &&                              \
@@ -283,6 +293,11 @@
    (a).neighbour.r.nQ == (b).neighbour.r.nQ && (a).neighbour.r.up == (b).neighbour.r.up && \
    (a).neighbour.cur == (b).neighbour.cur && (a).neighbour.idx == (b).neighbour.idx && \
    (a).neighbour.bound == (b).neighbour.bound && (a).neighbour.poisoned == (b).neighbour.poisoned)
+/* label cell of the pair (G_Q,G_P) (the PQ cell on the diagonal) */
+#define M_CELL_PQ(m) (*(m).valPQ)
+#define M_CELL_QP(m) (*(G_P == G_Q ? (m).valPQ : (m).valQP))
+#define M_HAS_PQ(m) ((m).s.hasPQ)
+#define M_HAS_QP(m) (G_P == G_Q ? (m).s.hasPQ : (m).s.hasQP)
 /* observed entries of vector<size_t> / matrix results */
 #define V_AT_P(v) ((v).vP)
 #define V_AT_Q(v) (G_P == G_Q ? (v).vP : (v).vQ)
